@@ -53,6 +53,8 @@ pub(super) enum Op {
     Replace(u8, u8),
     /// replace(old, unparsable PEM)
     ReplaceBad(u8),
+    /// replace(old, new) with the old fingerprint spelled in upper-case hex
+    ReplaceUp(u8, u8),
 }
 
 pub(super) fn alphabet() -> Vec<Op> {
@@ -65,6 +67,9 @@ pub(super) fn alphabet() -> Vec<Op> {
     }
     for (a, b) in [(0, 1), (1, 0), (0, 2), (2, 3), (3, 2), (1, 1), (4, 0)] {
         v.push(Op::Replace(a, b));
+    }
+    for (a, b) in [(1, 1), (0, 1), (2, 2)] {
+        v.push(Op::ReplaceUp(a, b));
     }
     v.push(Op::ReplaceBad(0));
     v.push(Op::ReplaceBad(3));
@@ -106,7 +111,7 @@ pub(super) fn spec_apply(live: &mut Vec<u8>, op: Op) {
             }
         }
         Op::Remove(i) => live.retain(|&x| x != i),
-        Op::Replace(old, new) => {
+        Op::Replace(old, new) | Op::ReplaceUp(old, new) => {
             // the new certificate is loaded, then the old one is dropped
             if !live.contains(&new) {
                 live.push(new);
@@ -154,12 +159,13 @@ fn run_history(h: &[Op]) -> Run {
         let res = match op {
             Op::Add(i) => r.add_certificate(&add_req(i)).map(|_| ()).map_err(|e| e.to_string()),
             Op::Remove(i) => r.remove_certificate(&fingerprint(i)).map_err(|e| e.to_string()),
-            Op::Replace(old, new) => {
+            Op::Replace(old, new) | Op::ReplaceUp(old, new) => {
                 let a = add_req(new);
+                let fp = cfgspace::fp(CERTS[old as usize].pem);
                 r.replace_certificate(&ReplaceCertificate {
                     address: a.address,
                     new_certificate: a.certificate,
-                    old_fingerprint: cfgspace::fp(CERTS[old as usize].pem),
+                    old_fingerprint: if matches!(op, Op::ReplaceUp(..)) { fp.to_ascii_uppercase() } else { fp },
                     new_expired_at: a.expired_at,
                 })
                 .map(|_| ())
@@ -341,6 +347,7 @@ pub(super) fn op_name(o: Op) -> String {
         Op::Add(i) => format!("add({})", CERTS[i as usize].name),
         Op::Remove(i) => format!("remove({})", CERTS[i as usize].name),
         Op::Replace(a, b) => format!("replace({} -> {})", CERTS[a as usize].name, CERTS[b as usize].name),
+        Op::ReplaceUp(a, b) => format!("replace({} [UPPER-CASE fingerprint] -> {})", CERTS[a as usize].name, CERTS[b as usize].name),
         Op::ReplaceBad(a) => format!("replace({} -> unparsable)", CERTS[a as usize].name),
     }
 }
@@ -369,7 +376,7 @@ fn run_a(ctx: &Ctx) -> Coverage {
             // read differently by the main state (loads it) and by the
             // resolver (no-op); that disagreement belongs to C08, here the
             // operation is simply not enabled
-            if let Op::Replace(a, b) = alpha[sym] {
+            if let Op::Replace(a, b) | Op::ReplaceUp(a, b) = alpha[sym] {
                 if a == b {
                     let mut live = vec![];
                     for &op in h.iter() {
